@@ -42,6 +42,10 @@ def truth(v):
 PHYSICAL_CONSTANTS = {'H', 'C', 'K'}
 
 
+def _is_enum(cls):
+    return any((b or '').split('.')[-1] in ('Enum', 'IntEnum', 'StrEnum', 'Flag', 'IntFlag') for b in cls.base_exprs)
+
+
 def _constant_expr(node):
     """literals combined by arithmetic with names / dotted names (other constants), tuples of those; no calls"""
     if isinstance(node, ast.Constant):
@@ -616,7 +620,17 @@ class ExprMixin:
         if isinstance(base, Const) and isinstance(base.value, tuple) and base.value[0] == 'module':
             tgt = self.repo.resolve_dotted(f'lentil.{base.value[1]}.{name}')
             return self.target_value(tgt, name)
+        if isinstance(base, Const) and isinstance(base.value, tuple) and base.value and base.value[0] == 'enum' and name in ('value', 'name'):
+            # member.value / member.name of an enum.Enum member
+            _, ckey, mname = base.value
+            if name == 'name':
+                return Const(mname)
+            val = self.repo.cls(ckey).class_attrs.get(mname)
+            if isinstance(val, ast.Constant):
+                return self.e_Constant(val, None)
         if isinstance(base, Const) and isinstance(base.value, ClassInfo):
+            if _is_enum(base.value) and name in base.value.class_attrs and not name.startswith('_'):
+                return Const(('enum', base.value.key, name))        # Color.RED: the member itself
             f = base.value.find_method(name)
             if f is not None:
                 return Const(('unbound', f))
